@@ -3348,7 +3348,7 @@ func makeZombiePubkeys(node1, node2 [33]byte, e1, e2 *time.Time) ([33]byte,
 	// return a blank pubkey for edge1. In this case, only an update from
 	// edge2 can resurect the channel.
 	default:
-		return [33]byte{}, node1
+		return [33]byte{}, node2
 	}
 }
 
